@@ -1,9 +1,10 @@
 import Percival.Driver.Loop
 import Percival.Driver.Ds
-import Percival.Model.AllocFail
+import Percival.Model.UpStep
 /-!
-`pmodel upmodel`: line protocol of the start / registration / teardown ops of harness/h_af_upper.c (driver
-code) — `Model/AllocFail.lean` under the same allocation-failure schedule as the C.
+`pmodel upmodel`: line protocol of the start / registration / teardown ops of harness/h_af_upper.c —
+`Model/AllocFail.lean` under the same allocation-failure schedule as the C.  Thin by construction: `parseOp` turns a
+line into a typed `Model.UpStep.Op`, `Model.UpStep.stepOp` does everything else, `render` prints its typed output.
 
 Ops: `failat k` / `failfrom k` / `failoff`; `nr_start h slot`, `nr_cancel h`, `nw_start h slot`, `nw_cancel h`,
 `na_start h slot`, `na_cancel h`, `nc_start h pattern timeo`, `nc_cancel h`, `nbr_init h slot`, `nbr_wait h len`,
@@ -14,212 +15,65 @@ blocks, sizes of the requests made during the op (in order), descriptors with a 
 number of immediate events and of timers, fill of the four pools.
 -/
 namespace Percival.Driver.Upmodel
-open Percival.Driver Percival.Model Percival.Model.EvReg Percival.Model.AllocFail
-open Percival.Driver.Ds (sched rf)
-
-/-- sizes of the requests made between two memory states, in order -/
-def showReq (m m' : Mem) : String :=
-  let l := (m'.log.take (m'.n - m.n)).reverse
-  if l.isEmpty then "req=-" else "req=" ++ ",".intercalate (l.map toString)
+open Percival.Driver Percival.Model Percival.Model.UpStep
 open Percival.Model.Connect (AddrOutcome)
+open Percival.Driver.Ds (showL2c)
 
-def FDBASE : Nat := 64
-def NSLOT : Nat := 24
-def MAXOBJ : Nat := 32
+/-! ## text → typed op -/
 
-structure S where
-  w : World := { m := { f := sched 0 0 0 } }
-  rd : List (Nat × Nat) := []       -- harness handle ↦ object id
-  wr : List (Nat × Nat) := []
-  acc : List (Nat × Nat) := []
-  conn : List (Nat × Nat) := []
-  nbr : List (Nat × Nat) := []
-  nbw : List (Nat × Nat) := []
-  nbwResv : List (Nat × Nat) := []  -- handle ↦ length reserved
-  http : List (Nat × Nat) := []
-
-def look (t : List (Nat × Nat)) (h : Nat) : Option Nat := (t.find? (·.1 == h)).map (·.2)
-def drop (t : List (Nat × Nat)) (h : Nat) : List (Nat × Nat) := t.filter (·.1 != h)
-
-def slotBusy (e : Ev) (fd : Nat) (isW : Bool) : Bool :=
-  match e.socks[fd]? with
-  | some r => (slot r isW).isSome
-  | none => false
-
-/-- the descriptor `socket()` returns: the lowest one not open (0-2, the listener 60 and the slots are) -/
-def freshFd (w : World) : Nat :=
-  let used := w.conns.filterMap (·.sock)
-  ((List.range (used.length + 1)).find? (fun i => !used.contains (i + 3))).getD 0 + 3
-
-def l2 (w0 w : World) : String :=
-  let ents := (w.ev.socks.zipIdx.filter (fun p => p.1.reader.isSome || p.1.writer.isSome)).map fun p =>
-    s!"{p.2}:{if p.1.reader.isSome then "r" else "-"}{if p.1.writer.isSome then "w" else "-"}"
-  let sS := if ents.isEmpty then "-" else ",".intercalate ents
-  let imm := w.ev.heads.flatten.length
-  let tm := match w.ev.tq with | some t => t.q.h.a.size | none => 0
-  let pl (p : MPool.MP) := s!"{p.stacklen}/{p.allocsize}"
-  s!"live={w.m.live} {showReq w0.m w.m} S={sS} imm={imm} tm={tm} pools={pl w.rdPool},{pl w.wrPool},{pl w.ev.recPool},{pl w.ev.qPool}"
-
-def line (ok : Bool) (w0 w : World) : String :=
-  s!"{if ok then "ok" else "fail"} rf={rf w0.m w.m} | {l2 w0 w}"
-
+/-- `-`: no address; otherwise one letter per address, `g` connects at once, anything else fails at once -/
 def parsePattern (p : String) : List AddrOutcome :=
   if p = "-" then [] else p.toList.map fun c => if c = 'g' then .success else .failNow
 
-/-- keep the timer heap's notification log short (it is only read through `posOf`) -/
-def trim (w : World) : World :=
-  match w.ev.tq with
-  | some t =>
-    let live := t.q.h.a.toList
-    let log := live.filterMap fun r => (t.q.h.log.find? (·.1 == r))
-    { w with ev := { w.ev with tq := some { t with q := { t.q with h := { t.q.h with log := log } } } } }
-  | none => w
+def parseOp : List String → Option Op
+  | ["failat", k] => do pure (.failat (← k.toNat?))
+  | ["failfrom", k] => do pure (.failfrom (← k.toNat?))
+  | ["failoff"] => some .failoff
+  | ["end"] => some .end_
+  | ["nr_start", h, sl] => do pure (.start .read (← h.toNat?) (← sl.toNat?))
+  | ["nw_start", h, sl] => do pure (.start .write (← h.toNat?) (← sl.toNat?))
+  | ["na_start", h, sl] => do pure (.start .accept (← h.toNat?) (← sl.toNat?))
+  | ["nbr_init", h, sl] => do pure (.nbrInit (← h.toNat?) (← sl.toNat?))
+  | ["nbw_init", h, sl] => do pure (.nbwInit (← h.toNat?) (← sl.toNat?))
+  | ["nbr_wait", h, len] => do pure (.nbrWait (← h.toNat?) (← len.toNat?))
+  | ["nbw_reserve", h, len] => do pure (.nbwReserve (← h.toNat?) (← len.toNat?))
+  | ["nbw_consume", h, len] => do pure (.nbwConsume (← h.toNat?) (← len.toNat?))
+  | ["nbw_write", h, len] => do pure (.nbwWrite (← h.toNat?) (← len.toNat?))
+  | ["nr_cancel", h] => do pure (.rel .nrCancel (← h.toNat?))
+  | ["nw_cancel", h] => do pure (.rel .nwCancel (← h.toNat?))
+  | ["na_cancel", h] => do pure (.rel .naCancel (← h.toNat?))
+  | ["nc_cancel", h] => do pure (.rel .ncCancel (← h.toNat?))
+  | ["hq_cancel", h] => do pure (.rel .hqCancel (← h.toNat?))
+  | ["nbw_free", h] => do pure (.rel .nbwFree (← h.toNat?))
+  | ["nbr_cancel", h] => do pure (.rel .nbrCancel (← h.toNat?))
+  | ["nbr_free", h] => do pure (.rel .nbrFree (← h.toNat?))
+  | ["nc_start", h, pat, timeo] => do
+      let t : Option Int ← if timeo = "-" then pure none else (timeo.toInt?).map some
+      pure (.ncStart (← h.toNat?) (parsePattern pat) t)
+  | ["hq_start", h, pat, pl] => do pure (.hqStart (← h.toNat?) (parsePattern pat) (← pl.toNat?))
+  | _ => none
 
-/-- everything `release_all` of the harness does, in its order -/
-def releaseAll (s : S) : S :=
-  let w0 : World := { s.w with m := { s.w.m with f := sched 0 0 0 } }
-  let asc (t : List (Nat × Nat)) := (t.mergeSort (fun a b => a.1 ≤ b.1)).map (·.2)
-  let opt (f : World → Nat → Option World) (w : World) (x : Nat) : World := (f w x).getD w
-  let w1 := (asc s.http).foldl (opt httpRequestCancel) w0
-  let w2 := (asc s.conn).foldl (opt networkConnectCancel) w1
-  let w3 := (asc s.acc).foldl (opt networkAcceptCancel) w2
-  let w4 := (asc s.rd).foldl (opt networkReadCancel) w3
-  let w5 := (asc s.wr).foldl (opt networkWriteCancel) w4
-  let w6 := (asc s.nbr).foldl (fun w x => opt netbufReadFree (opt netbufReadWaitCancel w x) x) w5
-  let w7 := (asc s.nbw).foldl (opt netbufWriteFree) w6
-  let w8 := atexitAll w7
-  { w := { m := { w8.m with f := sched 0 0 0 }, live := w8.live, cache := w8.cache, bad := w8.bad } }
+/-! ## typed output → text -/
+
+def showL2 (x : L2) : String :=
+  let ents := x.socks.map fun (p : Nat × Bool × Bool) => s!"{p.1}:{if p.2.1 then "r" else "-"}{if p.2.2 then "w" else "-"}"
+  let sS := if ents.isEmpty then "-" else ",".intercalate ents
+  let pools := ",".intercalate (x.pools.map fun (p : Nat × Nat) => s!"{p.1}/{p.2}")
+  s!"{showL2c x.c} S={sS} imm={x.imm} tm={x.tm} pools={pools}"
+
+def render : Out → String
+  | .word .ok => "ok"
+  | .word .skip => "skip"
+  | .word .modelContract => "model-contract"
+  | .end_ live n left =>
+    let tail := match left with | none => "" | some (l, b) => s!" model-live={l} model-bad={b}"
+    s!"end live={live} leaked=0 | n={n}{tail}"
+  | .line ok rfn l2 => s!"{if ok then "ok" else "fail"} rf={rfn} | {showL2 l2}"
 
 def step (s : S) (toks : List String) : S × String :=
-  let w := s.w
-  let m := w.m
-  let setF (f : Nat → Nat → Bool) : S := { s with w := { w with m := { m with f := f } } }
-  let objOk (h : String) : Option Nat := if h.toNat! < MAXOBJ then some h.toNat! else none
-  let slotFd (sl : String) : Option Nat := if sl.toNat! < NSLOT then some (FDBASE + sl.toNat!) else none
-  match toks with
-  | ["failat", k] => (setF (sched 1 k.toNat! m.n), "ok")
-  | ["failfrom", k] => (setF (sched 2 k.toNat! m.n), "ok")
-  | ["failoff"] => (setF (sched 0 0 0), "ok")
-  | ["end"] =>
-    let s' := releaseAll s
-    let tail := if s'.w.live.isEmpty && s'.w.cache.isEmpty && s'.w.bad == 0 then "" else s!" model-live={s'.w.live.length + s'.w.cache.length} model-bad={s'.w.bad}"
-    (s', s!"end live={s'.w.m.live} leaked=0 | n={s'.w.m.n}{tail}")
-  | [op, h, sl] =>
-    if op == "nr_start" || op == "nw_start" || op == "na_start" then
-      let isW := op == "nw_start"
-      let tab := if op == "nr_start" then s.rd else if isW then s.wr else s.acc
-      match objOk h, slotFd sl with
-      | some hh, some fd =>
-        if (look tab hh).isSome || slotBusy w.ev fd isW then (s, "skip") else
-        let (o, w') := if op == "nr_start" then networkRead w fd else if isW then networkWrite w fd else networkAccept w fd
-        let s1 := { s with w := w' }
-        let s2 := match o with
-          | some c => if op == "nr_start" then { s1 with rd := (hh, c) :: s.rd }
-                      else if isW then { s1 with wr := (hh, c) :: s.wr } else { s1 with acc := (hh, c) :: s.acc }
-          | none => s1
-        (s2, line o.isSome w w')
-      | _, _ => (s, "skip")
-    else if op == "nbr_init" then
-      match objOk h, slotFd sl with
-      | some hh, some fd =>
-        if (look s.nbr hh).isSome then (s, "skip") else
-        let (o, w') := netbufReadInit w fd
-        ({ s with w := w', nbr := match o with | some r => (hh, r) :: s.nbr | none => s.nbr }, line o.isSome w w')
-      | _, _ => (s, "skip")
-    else if op == "nbw_init" then
-      match objOk h, slotFd sl with
-      | some hh, some fd =>
-        if (look s.nbw hh).isSome then (s, "skip") else
-        let (o, w') := netbufWriteInit w fd
-        ({ s with w := w', nbw := match o with | some r => (hh, r) :: s.nbw | none => s.nbw }, line o.isSome w w')
-      | _, _ => (s, "skip")
-    else if op == "nbr_wait" then
-      let len := sl.toNat!
-      match (objOk h).bind (look s.nbr) with
-      | none => (s, "skip")
-      | some rid =>
-        match w.readers.find? (·.id == rid) with
-        | none => (s, "skip")
-        | some r =>
-          if r.readCookie.isSome || r.immediate || (len > 0 && slotBusy w.ev r.fd false) then (s, "skip") else
-          let (rc, w') := netbufReadWait w rid len
-          ({ s with w := w' }, line (rc == .ok) w w')
-    else if op == "nbw_reserve" then
-      let len := sl.toNat!
-      match (objOk h).bind (look s.nbw) with
-      | none => (s, "skip")
-      | some wid =>
-        match w.writers.find? (·.id == wid) with
-        | none => (s, "skip")
-        | some x =>
-          if x.reserved then (s, "skip") else
-          let (rc, w') := netbufWriteReserve w wid len
-          let resv := if rc == .ok then (h.toNat!, len) :: drop s.nbwResv h.toNat! else s.nbwResv
-          ({ s with w := w', nbwResv := resv }, line (rc == .ok) w w')
-    else if op == "nbw_consume" || op == "nbw_write" then
-      let len := sl.toNat!
-      let isC := op == "nbw_consume"
-      match (objOk h).bind (look s.nbw) with
-      | none => (s, "skip")
-      | some wid =>
-        match w.writers.find? (·.id == wid) with
-        | none => (s, "skip")
-        | some x =>
-          let resv := (look s.nbwResv h.toNat!).getD 0
-          if (if isC then (!x.reserved || len > resv) else x.reserved) || (x.curr.isNone && slotBusy w.ev x.fd true) then (s, "skip") else
-          let (rc, w') := if isC then netbufWriteConsume w wid len else netbufWriteWrite w wid len
-          ({ s with w := w' }, line (rc == .ok) w w')
-    else (s, "bad-op")
-  | [op, h] =>
-    let cancel (tab : List (Nat × Nat)) (f : World → Nat → Option World) (upd : List (Nat × Nat) → S → S) : S × String :=
-      match (objOk h).bind (look tab) with
-      | none => (s, "skip")
-      | some c =>
-        match f w c with
-        | none => (s, "model-contract")
-        | some w' =>
-          let w' := trim w'
-          (upd (drop tab h.toNat!) { s with w := w' }, line true w w')
-    if op == "nr_cancel" then cancel s.rd networkReadCancel (fun t s => { s with rd := t })
-    else if op == "nw_cancel" then cancel s.wr networkWriteCancel (fun t s => { s with wr := t })
-    else if op == "na_cancel" then cancel s.acc networkAcceptCancel (fun t s => { s with acc := t })
-    else if op == "nc_cancel" then cancel s.conn networkConnectCancel (fun t s => { s with conn := t })
-    else if op == "hq_cancel" then cancel s.http httpRequestCancel (fun t s => { s with http := t })
-    else if op == "nbw_free" then cancel s.nbw netbufWriteFree (fun t s => { s with nbw := t, nbwResv := drop s.nbwResv h.toNat! })
-    else if op == "nbr_cancel" then
-      match (objOk h).bind (look s.nbr) with
-      | none => (s, "skip")
-      | some rid =>
-        match netbufReadWaitCancel w rid with
-        | none => (s, "model-contract")
-        | some w' => let w' := trim w'; ({ s with w := w' }, line true w w')
-    else if op == "nbr_free" then
-      match (objOk h).bind (look s.nbr) with
-      | none => (s, "skip")
-      | some rid =>
-        match netbufReadFree w rid with
-        | none => (s, "skip")       -- busy
-        | some w' => ({ s with w := w', nbr := drop s.nbr h.toNat! }, line true w w')
-    else (s, "bad-op")
-  | ["nc_start", h, pat, timeo] =>
-    match objOk h with
-    | none => (s, "skip")
-    | some hh =>
-      if (look s.conn hh).isSome || pat.length > 8 then (s, "skip") else
-      let t : Option Int := if timeo = "-" then none else some timeo.toInt!
-      let (o, w') := networkConnect w (parsePattern pat) t (freshFd w)
-      let w' := trim w'
-      ({ s with w := w', conn := match o with | some c => (hh, c) :: s.conn | none => s.conn }, line o.isSome w w')
-  | ["hq_start", h, pat, pl] =>
-    match objOk h with
-    | none => (s, "skip")
-    | some hh =>
-      if (look s.http hh).isSome || pat.length > 8 || pl.toNat! > 256 then (s, "skip") else
-      -- "GET" " " path " HTTP/1.1\r\n" + "Host: x\r\n" + "Connection: close\r\n" + "\r\n"
-      let headlen := 3 + 1 + (1 + pl.toNat!) + 11 + (4 + 1 + 4) + (10 + 5 + 4) + 2
-      let (o, w') := httpRequest w (parsePattern pat) headlen (freshFd w)
-      ({ s with w := w', http := match o with | some c => (hh, c) :: s.http | none => s.http }, line o.isSome w w')
-  | _ => (s, "bad-op")
+  match parseOp toks with
+  | some op => let (s', o) := stepOp s op; (s', render o)
+  | none => (s, "bad-op")
 
 def main (_args : List String) : IO UInt32 := loop ({} : S) step
 
